@@ -601,4 +601,99 @@ example : Inv sampleBurst [(0, 18), (0, 32)] ∧ sampleBurst.oneshot.keys ≠ []
     subst hc
     exact Or.inr (Or.inl (by simp [sampleBurst, sampleActive]))
 
+/-! ## Findings recorded after the remarks of round t5 -/
+
+/-- `n` ticks of the layout; `none` on a crash -/
+def tickN : Nat → Layout → Option Layout
+  | 0, s => some s
+  | n + 1, s => match tick s with
+    | .ok (s', _) => tickN n s'
+    | .error _ => none
+
+/-- an input event followed by the tick that processes it -/
+def evThenTick (s : Layout) (e : Ev) : Option Layout :=
+  match s.event e with
+  | .ok s' => tickN 1 s'
+  | .error _ => none
+
+/-- From `sampleActive` (one-shot LShift tapped, press variant, rapid-event delay 5): the first
+following key `d` is pressed; four ticks later - inside the delay in which the release of LShift is
+outstanding and the input queue is paused - `aq` is put into the action queue (this is how chords v2
+hands a chord's action to the layout: `Layout::tick` pushes it to `action_queue` and performs it
+before `tick_osh`, whatever the pause says); `d` is released, 100 quiet ticks pass (first component)
+and the second key `e` is pressed (second component). -/
+def lingerRun (aq : ActionQueue) : Option (Layout × Layout) := do
+  let s ← evThenTick sampleActive (.press (0, 32))
+  let s ← tickN 4 s
+  let s ← tickN 1 { s with actionQueue := aq }
+  let s ← evThenTick s (.release (0, 32))
+  let s1 ← tickN 100 s
+  let s2 ← evThenTick s1 (.press (0, 18))
+  pure (s1, s2)
+
+/-- **oneshot_rearmed_in_release_delay_counterexample** (known finding, KNOWN_FINDINGS.jsonl C06).
+Full statement that fails: "with the press variants the second following key is never modified".
+`second_key_never_modified` proves it for every one-shot activation that arrives through the input
+queue (the queue is paused until the release is out).  A one-shot action performed from the ACTION
+queue during that delay (`do_action` `OneShot` arm: `self.oneshot.timeout = oneshot.timeout`)
+restores the full timeout of the activation that the first key had already ended: 100 ticks later
+LShift (42) is still down, and it is down together with the second key `e` (18).  Without the queued
+action the same run ends the one-shot as the property says.  On the real code: chords v2 chord
+`(defchordsv2 (e f) (one-shot 500 lalt) 35 first-release ())` pressed 5-6 ms after the first key
+(corpus/C06.txt). -/
+theorem oneshot_rearmed_in_release_delay_counterexample :
+    ((lingerRun [((0, 33), 0, .oneShot (.keyCode 56) 500 .firstPress)]).map fun r =>
+        (r.1.keycodes, r.2.keycodes)) = some ([42, 56], [42, 56, 18]) ∧
+    ((lingerRun []).map fun r => (r.1.keycodes, r.2.keycodes)) = some ([], [18]) := by
+  constructor <;> decide +kernel
+
+/-- **stale_pause_counter_counterexample** (about the pinned code, `armIgnorePinned`; repaired by fix
+PENDING-t5-1, KNOWN_FINDINGS: fixed).  `one-shot-pause-processing p` pressed while no one-shot is
+active armed `ticks_to_ignore_events`, which `tick_osh` only counts down (and only clears) while a
+one-shot is active: the value survived any number of ticks, and once a one-shot key was activated
+(`keys` non-empty, everything else as it was) the press of the first following key was ignored -
+it neither ended the one-shot nor was it recorded - so the one-shot key modified the SECOND following
+key as well (real code: corpus/C06.txt, `one-shot-pause-processing 50` tapped a second before). -/
+theorem stale_pause_counter_counterexample (o : OneShotState) (hk : o.keys = []) (p : Nat) (hp : 0 < p) :
+    (∀ n, (Nat.repeat (fun x => x.tick.1) n (o.armIgnorePinned p)) = o.armIgnorePinned p) ∧
+    (∀ (ks : List Coord) (T : Nat) (k : Coord),
+      ({ o.armIgnorePinned p with keys := ks, timeout := T }).handlePress (.other k) =
+        ({ o.armIgnorePinned p with keys := ks, timeout := T }, [])) := by
+  refine ⟨fun n => ?_, fun ks T k => ?_⟩
+  · induction n with
+    | zero => rfl
+    | succ n ih =>
+      simp only [Nat.repeat, ih]
+      rw [tick_inactive _ (by simp [OneShotState.armIgnorePinned, hk])]
+  · have : ¬ p = 0 := by omega
+    simp [OneShotState.handlePress, OneShotState.armIgnorePinned, Nat.pos_iff_ne_zero, this]
+
+/-- **pause_only_armed_while_active** (full; the code as repaired).  The pause is only started while a
+one-shot is active - where `tick_osh` counts it down on every tick and clears it when the activation
+ends - so a layout without an active one-shot never holds an armed pause: the invariant
+`keys = [] → ticksToIgnoreEvents = 0` is kept by the pause action (and `tick_osh` keeps it because it
+zeroes the counter whenever it empties `keys`). -/
+theorem pause_only_armed_while_active (o : OneShotState) (p : Nat)
+    (h : o.keys = [] → o.ticksToIgnoreEvents = 0) :
+    ((o.armIgnore p).keys = [] → (o.armIgnore p).ticksToIgnoreEvents = 0) ∧
+    (o.keys = [] → o.armIgnore p = o) ∧
+    ((o.tick.1).keys = [] → (o.tick.1).ticksToIgnoreEvents = 0) := by
+  refine ⟨?_, ?_, ?_⟩
+  · unfold OneShotState.armIgnore
+    split
+    · exact h
+    · rename_i hne; intro hk; simp at hk; simp [hk] at hne
+  · intro hk; simp [OneShotState.armIgnore, hk]
+  · unfold OneShotState.tick
+    split
+    · exact h
+    · simp only []
+      split
+      · intro _; rfl
+      · rename_i hne _; intro hk; simp at hk; simp [hk] at hne
+
+example : ({} : OneShotState).armIgnore 50 = {} ∧
+    (({ keys := [(0, 30)], timeout := 500 } : OneShotState).armIgnore 50).ticksToIgnoreEvents = 50 := by
+  exact ⟨rfl, rfl⟩
+
 end KVerif.C06
